@@ -78,6 +78,10 @@ def resolved_event(ev, ctx):
         v = _idval(x, ctx)
         return {"s": v} if isinstance(v, str) else {"i": v}
     k = ev["k"]
+    if k == "err" and ev.get("id") is None:
+        # an error the server could not attribute to any request (id null): to the model it is one
+        # more message that bears nobody's id
+        return {"k": "notif", "method": "(error response with id null)"}
     if k == "resp":
         return {"k": "resp", "id": mid(ev["id"]), "p": ev["p"]}
     if k == "err":
@@ -102,6 +106,20 @@ _HUNG = object()
 
 class _Hung(Exception):
     pass
+
+
+def _plain(x):
+    """str / dict / list SUBCLASS instances -> the builtin types (observations cross process
+    boundaries and are compared structurally; the JSON type is what matters)"""
+    if isinstance(x, bool) or x is None or type(x) in (int, float, str):
+        return x
+    if isinstance(x, str):
+        return str(x)
+    if isinstance(x, dict):
+        return {_plain(k): _plain(v) for k, v in x.items()}
+    if isinstance(x, (list, tuple)):
+        return [_plain(v) for v in x]
+    return x
 
 
 class _Unprintable(Exception):
@@ -167,20 +185,29 @@ def _helpers():
     return out
 
 
-async def _one(case, token, obs):
-    """One request on fresh streams, started now; event / completion ticks relative to the start."""
+async def _one(case, token, obs, streams=None, cancel_fn=None):
+    """One request, started now; event / completion ticks relative to the start.  `streams` =
+    (in_send, in_recv, out_send, out_recv) of a connection shared with earlier requests (then the
+    write stream is unbounded and always open), else fresh streams."""
     import anyio
     from chuk_mcp.protocol.messages.send_message import send_message, CancelledError
     from chuk_mcp.protocol.types.errors import RetryableError, NonRetryableError
 
     loop = __import__("asyncio").get_running_loop()
     t0 = loop.ticks
-    in_send, in_recv = anyio.create_memory_object_stream(math.inf)
+    if streams is None:
+        in_send, in_recv = anyio.create_memory_object_stream(math.inf)
+    else:
+        in_send, in_recv = streams[0], streams[1]
     # "writer": what the write stream does AFTER the first write: "open" takes everything;
     # "blocked" = the peer stopped reading and the (one-slot) buffer is kept full; "closed" = the
     # peer's end is closed right after the first write
     wmode = case.get("writer", "open")
-    out_send, out_recv = anyio.create_memory_object_stream(1 if wmode == "blocked" else math.inf)
+    if streams is None:
+        out_send, out_recv = anyio.create_memory_object_stream(1 if wmode in ("blocked", "stalled") else math.inf)
+    else:
+        out_send, out_recv = streams[2], streams[3]
+        wmode = "open"
     filler_send = out_send.clone()
     writes = []
     # a caller-supplied id is known up front; a falsy one ("" / 0) makes send_message generate
@@ -189,7 +216,7 @@ async def _one(case, token, obs):
     ctx = {"id": preset if preset else None, "tok": None}
 
     def drain():
-        if wmode == "blocked" and writes and not drain.final:
+        if wmode in ("blocked", "stalled") and writes and not drain.final and not drain.released:
             return  # the peer has stopped reading: taking an item would let a blocked write through
         while True:
             try:
@@ -200,7 +227,7 @@ async def _one(case, token, obs):
                 break
             if m is _FILLER:
                 continue
-            d = m.model_dump(exclude_none=True) if hasattr(m, "model_dump") else m
+            d = _plain(m.model_dump(exclude_none=True) if hasattr(m, "model_dump") else m)
             writes.append(d)
             if isinstance(d, dict) and "id" in d and d.get("method") and d.get("method") != "notifications/cancelled":
                 if ctx["id"] is None:
@@ -208,13 +235,24 @@ async def _one(case, token, obs):
                 meta = (d.get("params") or {}).get("_meta") or {}
                 # the request's own progress token exists only when a callback was supplied
                 ctx["tok"] = meta.get("progressToken") if case.get("progress") else None
-        if wmode == "blocked" and writes and not drain.final:
+        if wmode in ("blocked", "stalled") and writes and not drain.final and not drain.released:
             try:
                 filler_send.send_nowait(_FILLER)  # keep the one slot occupied
             except Exception:
                 pass
 
     drain.final = False
+    drain.released = False
+
+    def reads_again():
+        # the stalled peer starts reading again: whatever is waiting goes through, and from now on
+        # the stream is drained at every scripted instant as in the open state
+        drain.released = True
+        drain()
+        loop.at(loop.ticks, drain)  # the write that was blocked completes in this instant
+
+    if wmode == "stalled":
+        loop.at(t0 + case["stallUntil"], reads_again)
 
     def after_first_write():
         drain()
@@ -227,9 +265,20 @@ async def _one(case, token, obs):
     cbs = []
     raises = set(case.get("cbRaises") or [])
 
+    cb_ticks = []
+
     async def cb(progress, total, message):
         k = len(cbs)
         cbs.append([progress, total, message])
+        cb_ticks.append(loop.ticks - t0)
+        act = case.get("cbAction")
+        if act and k == act[1]:
+            # re-entrancy: the callback uses the objects the call itself is using
+            if act[0] == "cancel" and cancel_fn is not None:
+                cancel_fn()
+            elif act[0] == "send":
+                from chuk_mcp.protocol.messages.json_rpc_message import create_notification
+                await out_send.send(create_notification(method="notifications/message", params={"from": "callback"}))
         if k in raises:
             raise _CB_EXCEPTIONS[(case.get("cbExc", 0) + k) % len(_CB_EXCEPTIONS)]()
 
@@ -244,6 +293,9 @@ async def _one(case, token, obs):
 
     for a, ev in case["ev"]:
         loop.at(t0 + a, fire(ev))
+    if case.get("eos") is not None:
+        # the connection's read side ends (transport shut down, peer gone) at that tick
+        loop.at(t0 + case["eos"], in_send.close)
 
     D_s = case["D"] * vloop.TICK
     helper = case.get("helper")
@@ -257,7 +309,7 @@ async def _one(case, token, obs):
         # cancellation cannot be cut off by the scope below, so the stalled writer is let go
         # (the peer "starts reading again"); whatever the call then does, it is reported as hung.
         hung["v"] = True
-        if wmode == "blocked":
+        if wmode in ("blocked", "stalled"):
             drain.final = True
             drain()
 
@@ -272,7 +324,10 @@ async def _one(case, token, obs):
             else:
                 kwargs = {}
                 if case.get("id") is not None:
-                    kwargs["message_id"] = _idval(case["id"], {})
+                    mid = _idval(case["id"], {})
+                    if case.get("idSubclass") and isinstance(mid, str):
+                        mid = type("CallerStr", (str,), {})(mid)  # a str SUBCLASS as the caller's id
+                    kwargs["message_id"] = mid
                 if token is not None:
                     kwargs["cancellation_token"] = token
                 if case.get("progress"):
@@ -311,25 +366,60 @@ async def _one(case, token, obs):
     drain()
     obs["writes"] = writes
     obs["cbs"] = cbs
+    obs["cb_ticks"] = cb_ticks
     obs["sent_id"] = ctx["id"]
     obs["tok"] = ctx["tok"]
     return obs
 
 
+def make_token(kind):
+    """-> (token handed to send_message, function that cancels it).  "plain": the library's own
+    class.  "linked": a subclass whose flag is its parent's (cancelling the parent runs the PARENT's
+    callbacks only -- a group of requests under one parent).  "duck": an unrelated object with the
+    same public surface (is_cancelled / add_callback / cancel) that keeps no callbacks."""
+    from chuk_mcp.protocol.messages.send_message import CancellationToken
+    if kind == "linked":
+        parent = CancellationToken()
+
+        class Linked(CancellationToken):
+            @property
+            def is_cancelled(self):
+                return parent.is_cancelled or super().is_cancelled
+        return Linked(), parent.cancel
+    if kind == "duck":
+        class Duck:
+            def __init__(self):
+                self._flag = False
+
+            @property
+            def is_cancelled(self):
+                return self._flag
+
+            def add_callback(self, cb):
+                if self._flag:
+                    cb()
+
+            def cancel(self):
+                self._flag = True
+        d = Duck()
+        return d, d.cancel
+    t = CancellationToken()
+    return t, t.cancel
+
+
 def run_case(case):
     """Execute one scripted history on the real code.  Returns the observation dict."""
-    from chuk_mcp.protocol.messages.send_message import CancellationToken
-
     obs = {}
 
     async def main():
         loop = __import__("asyncio").get_running_loop()
-        token = CancellationToken() if (case.get("hasToken") or case.get("pre") or case.get("cancelAt") is not None) else None
+        token, cancel = (make_token(case.get("tokenKind", "plain"))
+                         if (case.get("hasToken") or case.get("pre") or case.get("cancelAt") is not None) else (None, None))
         if token is not None and case.get("pre"):
-            token.cancel()
+            cancel()
         if case.get("cancelAt") is not None:
-            loop.at(case["cancelAt"], token.cancel)
-        await _one(case, token, obs)
+            loop.at(case["cancelAt"], cancel)
+        await _one(case, token, obs, cancel_fn=cancel)
 
     vloop.run(main, tie=case.get("tie", "events"))
     return obs
@@ -347,21 +437,27 @@ def run_seq(case):
 
     async def main():
         loop = __import__("asyncio").get_running_loop()
-        token = None if case.get("noToken") else CancellationToken()
+        token, cancel = (None, None) if case.get("noToken") else make_token(case.get("tokenKind", "plain"))
         fire = case.get("fire")
         if fire is not None:
             if fire == 0:
-                token.cancel()
+                cancel()
             else:
-                loop.at(fire, token.cancel)
+                loop.at(fire, cancel)
         if case.get("mode") == "par":
             async with anyio.create_task_group() as tg:
                 for sub, o in zip(case["reqs"], out):
                     tg.start_soon(_one, sub, token, o)
         else:
             gaps = case.get("gaps") or []
+            shared = None
+            if case.get("sharedStreams"):
+                # ONE connection for the whole sequence (a retry, the next call of a session)
+                a, b = anyio.create_memory_object_stream(math.inf)
+                c, d = anyio.create_memory_object_stream(math.inf)
+                shared = (a, b, c, d)
             for i, (sub, o) in enumerate(zip(case["reqs"], out)):
-                await _one(sub, token, o)
+                await _one(sub, token, o, shared)
                 g = gaps[i] if i < len(gaps) else 0
                 if g:
                     await anyio.sleep(g * vloop.TICK)
@@ -396,7 +492,7 @@ def model_line(case, obs, poll_ticks=P_TICKS_DEFAULT):
         "cancelAt": case.get("cancelAt"),
         "token": ({"s": ctx["tok"]} if isinstance(ctx["tok"], str) else {"i": ctx["tok"]}) if ctx["tok"] is not None else None,
         "eventsFirst": case.get("tie", "events") in ("events", "io"),
-        "writer": case.get("writer", "open"),
+        "writer": case.get("writer", "open"), "stallUntil": case.get("stallUntil"),
         "ev": [[a, resolved_event(ev, ctx)] for a, ev in case["ev"]],
     }
 
@@ -436,7 +532,7 @@ def model_shape(out):
 # ----------------------------------------------------------------------- reference reading
 def matching(ev, sent_id):
     """Is this scripted event a response (result or error, no method) bearing the sent id?"""
-    if ev["k"] not in ("resp", "err"):
+    if ev["k"] not in ("resp", "err") or ev.get("id") is None:
         return False
     v = _idval(ev["id"], {"id": sent_id})
     return type(v) is type(sent_id) and v == sent_id
